@@ -537,7 +537,33 @@ func c18ReadFaults(t *testing.T, run *h.Run, c c18Case, st *w.State) {
 						return ""
 					}
 				}
-				l.ReconcileSetting("ns", fmt.Sprintf("set%d", idx+1))
+				before := l.Capture(st)
+				rr := l.ReconcileSetting("ns", fmt.Sprintf("set%d", idx+1))
+				if i == step && fired {
+					// a reconcile that could not read the cluster state has not judged anything: it reports the failure (and is
+					// retried) instead of storing a verdict and reporting success
+					run.Count("antecedent:C18/rejected-read", 1)
+					name := fmt.Sprintf("set%d", idx+1)
+					var b, a *v1.ExtendedDaemonsetSetting
+					for _, x := range before.Settings() {
+						if x.Namespace == "ns" && x.Name == name {
+							b = x
+						}
+					}
+					for _, x := range l.Capture(st).Settings() {
+						if x.Namespace == "ns" && x.Name == name {
+							a = x
+						}
+					}
+					if rr.Err == nil && rr.Panic == nil {
+						msg := ""
+						if a != nil && b != nil {
+							msg = fmt.Sprintf("status %q/%q -> %q/%q", b.Status.Status, b.Status.Error, a.Status.Status, a.Status.Error)
+						}
+						run.Violate(h.Violation{Signature: "C18/read-fault: a setting reconcile whose read of the cluster state was rejected reports success (no retry) instead of the error", Monitor: "C18/read-fault",
+							Message: msg, Rank: int64(len(c.Nodes)), Replay: map[string]interface{}{"case": c, "faulted_reconcile": step, "read_index": k}})
+					}
+				}
 			}
 			if !fired {
 				continue
